@@ -780,18 +780,134 @@ func (g *gctx) defName(taken map[string]bool) string {
 
 var paramKinds = []kind{kAny, kAny, kInt, kInt, kFloat, kSmall, kWord, kDate, kArr, kBool, kUnix}
 
-// definitions generates 1..max user functions; later ones may call earlier ones.
+// visible lists what a call written at position q may name: q is the index of
+// the definition whose body holds the call, q == len(defs) the calling
+// template (after every file has been loaded). The documentation says nothing
+// about a name that is defined more than once; the property sentence ("a call
+// equals its body written inline", the body's own calls meaning what they meant
+// when the body was loaded) fixes this much and no more:
+//
+//   - exactly ONE definition of the name stands before q: the call is bound to
+//     it (whatever is defined later, or by the definition q itself, does not
+//     reach back), and the reference expands it on the tree;
+//   - two or more stand before q and none at or after q: WHICH of them a call
+//     means (first or last) is open, but it must mean the same at q and at the
+//     call site, because the same definitions are known at both points: the
+//     call is written but never expanded (an opaque callee), and the reference
+//     is the body around it written inline with that call left in place;
+//   - two or more before q and another at or after q: nothing to assert, the
+//     name is not called there.
+func visible(defs []*Def, q int) (out []*Def, dropped int) {
+	seen := map[string]bool{}
+	for j := 0; j < q; j++ {
+		name := defs[j].Pub
+		if seen[name] {
+			continue
+		}
+		seen[name] = true
+		var before []*Def
+		after := false
+		for k, d := range defs {
+			if d.Pub != name {
+				continue
+			}
+			if k < q {
+				before = append(before, d)
+			} else {
+				after = true
+			}
+		}
+		switch {
+		case len(before) == 1:
+			out = append(out, before[0])
+		case !after:
+			last := before[len(before)-1]
+			o := &Def{Name: name + "#?", Pub: name, Opaque: true, Params: last.Params, TopArgs: map[int]bool{}, File: -1}
+			for _, b := range before {
+				if b.File != before[0].File {
+					o.File = -2 // its definitions stand in different files
+				}
+			}
+			out = append(out, o)
+		default:
+			dropped++
+		}
+	}
+	return out, dropped
+}
+
+// callee picks one of the callable definitions. Names defined more than once
+// would rarely be reached otherwise: a body prefers, now and then, an opaque
+// callee or a definition that reaches one; the calling template prefers a
+// definition it can expand that reaches one.
+func (g *gctx) callee(cands []*Def, inBody bool, label string) *Def {
+	var pref []*Def
+	for _, d := range cands {
+		if d.ReachesOpaque || inBody && d.Opaque {
+			pref = append(pref, d)
+		}
+	}
+	if len(pref) > 0 && g.chance(50, label+"Multi") {
+		return pref[g.n(0, len(pref)-1, label+"MultiIdx")]
+	}
+	if !inBody {
+		// something the reference can expand, mostly
+		var exp []*Def
+		for _, d := range cands {
+			if !d.Opaque {
+				exp = append(exp, d)
+			}
+		}
+		if len(exp) > 0 && g.chance(85, label+"Expandable") {
+			cands = exp
+		}
+	}
+	return cands[g.n(0, len(cands)-1, label)]
+}
+
+// definitions generates 1..max definitions spread over 1..3 funcs files (in
+// loading order); a definition may be written with the name of an earlier one
+// (in the same file or in a later file), bodies may call what `visible` allows.
 func (g *gctx) definitions(max int) []*Def {
 	n := g.n(1, max, "defs")
+	maxFiles := 1
+	switch r := g.n(0, 99, "files"); {
+	case r < 40:
+	case r < 75:
+		maxFiles = 2
+	default:
+		maxFiles = 3
+	}
 	taken := map[string]bool{}
+	all := make([]*Def, n)
+	for i := range all {
+		d := &Def{TopArgs: map[int]bool{}}
+		if i > 0 {
+			d.File = all[i-1].File
+			if d.File+1 < maxFiles && g.chance(50, "newFile") {
+				d.File++
+			}
+		}
+		if i > 0 && g.chance(20, "redefine") {
+			d.Pub = all[g.n(0, i-1, "redefined")].Pub
+		} else {
+			d.Pub = g.defName(taken)
+		}
+		d.Name = d.Pub + "#" + strconv.Itoa(i)
+		all[i] = d
+	}
 	var defs []*Def
 	for i := 0; i < n; i++ {
-		d := &Def{Name: g.defName(taken), TopArgs: map[int]bool{}}
+		d := all[i]
+		cands, dropped := visible(all, i)
+		for ; dropped > 0; dropped-- {
+			pbt.Exclude("name-with->=2-earlier-definitions-and-one-more-to-come:not-callable-from-this-body")
+		}
 		np := g.n(0, 3, "params")
 		for p := 0; p < np; p++ {
 			d.Params = append(d.Params, paramKinds[g.n(0, len(paramKinds)-1, "paramKind")])
 		}
-		g.defs = defs
+		g.defs = cands
 		g.body = d
 		g.budget = 5
 		nPieces := g.n(1, 3, "bodyPieces")
@@ -803,8 +919,8 @@ func (g *gctx) definitions(max int) []*Def {
 			r := g.n(0, 99, "bodyPiece")
 			switch {
 			case nPieces == 1 || r < 60:
-				if len(defs) > 0 && g.chance(35, "bodyCallsEarlier") {
-					e := defs[g.n(0, len(defs)-1, "earlier")]
+				if len(cands) > 0 && g.chance(35, "bodyCallsEarlier") {
+					e := g.callee(cands, true, "earlier")
 					c := g.callDef(e, 2, true)
 					// arguments landing at the top level of e's body become
 					// running text of this body as well
@@ -887,9 +1003,36 @@ func (g *gctx) definitions(max int) []*Def {
 			g.label("parameter-read-again")
 		}
 		g.body = nil
+		byName := map[string]*Def{}
+		for _, e := range defs {
+			byName[e.Name] = e
+		}
+		walk(d.Body, func(n *Node) {
+			if n.K != kCall {
+				return
+			}
+			n.InBody = true
+			if strings.HasSuffix(n.S, "#?") {
+				d.ReachesOpaque = true
+				g.label("body-calls-a-name-defined-more-than-once(left-in-place)")
+			} else if e := byName[n.S]; e != nil {
+				if e.ReachesOpaque {
+					d.ReachesOpaque = true
+				}
+				if e.Pub == d.Pub {
+					g.label("redefinition-calls-the-definition-it-replaces")
+				} else {
+					for _, later := range all[i+1:] {
+						if later.Pub == e.Pub {
+							g.label("body-bound-to-a-definition-replaced-later")
+						}
+					}
+				}
+			}
+		})
 		defs = append(defs, d)
 	}
-	g.defs = defs
+	g.defs, _ = visible(all, n)
 	return defs
 }
 
@@ -998,7 +1141,7 @@ func (l *layout) file(defs []*Def) string {
 	sb.WriteString(l.filler(2, false))
 	for _, d := range defs {
 		sb.WriteString(l.blanks(0, 2))
-		sb.WriteString(d.Name)
+		sb.WriteString(d.Pub)
 		if l.g.chance(12, "nameBreak") {
 			// exactly one blank between name and body, then the continuation
 			l.continuations++
